@@ -8,6 +8,7 @@ Direction B: seeded random decimal cells / displacements are run through the
 real code, the subtracted lattice coefficients are logged and TraceCell.tla
 accepts or rejects each record.
 """
+import os
 import random
 
 import numpy as np
@@ -15,7 +16,7 @@ import numpy as np
 from . import common
 from .common import Check, run_tlc_sharded, require_model_ok, validate_trace_all
 
-INVS = ["InvLattice", "InvHalfCell", "InvUntouched", "InvShift", "InvIdem", "InvShortest", "InvNonEmpty"]
+INVS = ["InvLattice", "InvHalfCell", "InvUntouched", "InvShift", "InvIdem", "InvShortest", "InvNonEmpty", "InvNearestIsLemmaSet"]
 
 
 def _near_any(w, imgs, scale, tol=1e-9):
@@ -111,6 +112,42 @@ def gen_trace(rng, nrec, remove_pbc):
     return recs, ctx
 
 
+LEMMAS = ["HalfCell", "NonEmpty", "Characterisation", "AtMostTwo", "ShiftInvariant", "Idempotent", "Shortest"]
+
+
+def apalache_lemmas(chk):
+    """Unbounded (all integers) one-axis lemmas of spec/MinImageLemma.tla, discharged symbolically by Apalache:
+    every lemma must hold, the deliberately false HalfCellStrict must be refuted (non-vacuity)."""
+    import concurrent.futures as cf
+    import shutil
+    import subprocess
+    import tempfile
+    tmp = tempfile.mkdtemp(prefix="verif_apa_")
+
+    def one(inv):
+        out = os.path.join(tmp, inv)
+        p = subprocess.run(["apalache-mc", "check", "--init=Init", f"--inv={inv}", "--length=0", f"--out-dir={out}",
+                            f"--run-dir={out}/run", os.path.join(common.SPEC, "MinImageLemma.tla")],
+                           capture_output=True, text=True, timeout=1200, cwd=tmp)
+        txt = p.stdout + p.stderr
+        return inv, ("NoError" if "The outcome is: NoError" in txt else "Error" if "The outcome is: Error" in txt else "failed"), txt[-1500:]
+    try:
+        with cf.ThreadPoolExecutor(max_workers=4) as ex:
+            results = list(ex.map(one, LEMMAS + ["HalfCellStrict"]))
+    finally:
+        shutil.rmtree(tmp, ignore_errors=True)
+    summary = {}
+    for inv, verdict, tail in results:
+        summary[inv] = verdict
+        want = "Error" if inv == "HalfCellStrict" else "NoError"
+        if verdict != want:
+            raise common.MachineryError(f"Apalache: lemma {inv} of MinImageLemma.tla gave {verdict}, expected {want}\n{tail}")
+    chk.extra["apalache_unbounded_lemmas"] = summary
+    chk.assumptions.append("MinImageLemma.tla (Apalache 0.58, SMT over unbounded integers): per-axis half-cell, characterisation, "
+                           "at most two members, shift invariance, idempotence and shortest-image lemmas hold for ALL integers; "
+                           "trusted: Apalache/Z3 and the Euclidean-division witness f0 chosen in Init")
+
+
 def run(tier, replay=None):
     common.import_lib()
     from PyMatterSim.utils.pbc import remove_pbc
@@ -125,6 +162,7 @@ def run(tier, replay=None):
         case = common.load_replay(replay)["case"]
         print(json_dump(case))
         return 0
+    apalache_lemmas(chk)
     # --- model checking of the clauses + emission
     for D in (2, 3):
         r = run_tlc_sharded("MC_Cell", dict(constants={"Tier": tier, "D": D, "Gen": False}, invariants=INVS))
